@@ -100,4 +100,13 @@ theorem filter_congr' {l : List α} {f g : α → Bool} (h : ∀ x ∈ l, f x = 
     rw [ih (fun y hy => h y (List.mem_cons_of_mem _ hy))]
 
 end
+
+section
+variable {κ ν : Type} [LT κ]
+theorem WF.sorted {d : Nat} {f : Tree κ ν (d + 1)} (h : WF (d + 1) f) :
+    Sorted (show List (κ × Tree κ ν d) from f) := h.1
+
+theorem WF.sub {d : Nat} {f : Tree κ ν (d + 1)} (h : WF (d + 1) f) :
+    ∀ e ∈ (show List (κ × Tree κ ν d) from f), WF d e.2 := h.2
+end
 end Ft
